@@ -5,11 +5,14 @@ import (
 	"fmt"
 	"io"
 	"net"
+	"os"
+	"reflect"
 	"runtime"
 	"strings"
 	"sync"
 	"testing/synctest"
 	"time"
+	"unsafe"
 
 	kcp "github.com/xtaci/kcp-go/v5"
 )
@@ -539,6 +542,26 @@ func (w *World) Teardown(order []int) (leaks []string) {
 	s.StopActors()
 	if !s.Solo {
 		synctest.Wait()
+	}
+	if os.Getenv("VERIF_LEAKDBG") != "" {
+		if l := bubbleGoroutines(); len(l) > 0 {
+			buf := make([]byte, 1<<20)
+			n := runtime.Stack(buf, true)
+			fmt.Fprintf(os.Stderr, "LEAKDBG\n%s\n", buf[:n])
+			for _, ep := range w.Eps {
+				dieClosed := "?"
+				if f := reflect.ValueOf(ep.Sess).Elem().FieldByName("die"); f.IsValid() {
+					ch := *(*chan struct{})(unsafe.Pointer(f.UnsafeAddr()))
+					select {
+					case <-ch:
+						dieClosed = "closed"
+					default:
+						dieClosed = "OPEN"
+					}
+				}
+				fmt.Fprintf(os.Stderr, "LEAKDBG ep %s closeInvoked=%v closed=%v sess=%p die=%s\n", ep.Name, ep.CloseInvoked, ep.Closed, ep.Sess, dieClosed)
+			}
+		}
 	}
 	return bubbleGoroutines()
 }
